@@ -319,7 +319,13 @@ def parse_json_ui(out):
     return results, stats, errors
 
 
-def extract_input(trace_text, in_max):
+def extract_input(trace_text, in_max, pname=None):
+    if pname:
+        # several traces may be printed; keep the one of the property of interest
+        i = trace_text.find("Trace for %s:" % pname)
+        if i >= 0:
+            j = trace_text.find("\nTrace for ", i + 10)
+            trace_text = trace_text[i:j if j >= 0 else len(trace_text)]
     vals = {}
     for m in re.finditer(r"^\s*vp_in\[(\d+)l?\]=(\d+)", trace_text, re.M):
         vals[int(m.group(1))] = int(m.group(2)) & 0xFF
@@ -591,10 +597,10 @@ def handle_failure(ctx, prop, job, u, res, violations, inconclusive, rec):
     if tr["status"] == "timeout":
         inconclusive.append((job, "trace run timed out for " + desc))
         return
-    inp = extract_input(tr["out"], job.in_max)
+    inp = extract_input(tr["out"], job.in_max, pname)
     rep = native_replay(ctx, job, inp, pname or desc)
     ok, why = confirms(rep, desc)
-    rdir = os.path.join(VERIF, "replays", prop)
+    rdir = os.path.join(os.environ.get("VP_REPLAYS", os.path.join(VERIF, "replays")), prop)
     os.makedirs(rdir, exist_ok=True)
     tag = hashlib.sha1((job.name() + (pname or "") + desc).encode()).hexdigest()[:10]
     rpath = os.path.join(rdir, "%s-%s.json" % (job.entry, tag))
@@ -665,5 +671,6 @@ def write_evidence(ctx, prop, tier, seed, jobs, records, violations, inconclusiv
         "property_id": prop, "tier": tier, "seed": seed, "level": "model_checking", "coverage": cov,
         "assumptions": assumptions, "wall_s": round(wall, 2), "violations": len(violations),
     }
-    os.makedirs(os.path.join(VERIF, "evidence"), exist_ok=True)
-    json.dump(ev, open(os.path.join(VERIF, "evidence", prop + ".json"), "w"), indent=1)
+    evdir = os.environ.get("VP_EVIDENCE_DIR", os.path.join(VERIF, "evidence"))
+    os.makedirs(evdir, exist_ok=True)
+    json.dump(ev, open(os.path.join(evdir, prop + ".json"), "w"), indent=1)
